@@ -88,7 +88,9 @@ def build_page(seed, levels, mask, rot, heavy):
         else:
             item = M.AItem(kind="o" if j % 4 == 1 else "-",
                            words=[M.W(f"own{j}"), ("tag", "+", f"otag{j}"),
-                                  ("link", f"olink{j}"), ("prop", kn, f"own{j}")])
+                                  ("link", f"olink{j}"), ("prop", kn, f"own{j}"),
+                                  # the very tag and link the NEXT section header carries (if decorated)
+                                  ("tag", "#@%+"[(j + 1 + rot) % 4], f"{tn}{j + 1}"), ("link", f"{ln}{j + 1}")])
             if j % 4 == 1:
                 item.ident = ("long", "2020-12-%02d" % (1 + j))
             else:
